@@ -497,7 +497,12 @@ func (x *Exec) run() {
 	}
 	x.entry = st.clone()
 	x.usedPoints = map[int]bool{}
-	fl := x.execBlock(fi.Body.List, st, env)
+	var fl Flow
+	if x.con != nil && x.con.Prefix {
+		fl = x.execPrefix(fi.Body.List, st, env)
+	} else {
+		fl = x.execBlock(fi.Body.List, st, env)
+	}
 	if x.con != nil && !x.inlineMode {
 		for ord := range x.con.Loops {
 			found := false
@@ -521,6 +526,9 @@ func (x *Exec) run() {
 		final = x.merge(final, fl.normal)
 	} else if fl.normal != nil && fl.normal.pc != "false" {
 		// falling off the end of a function with results cannot happen in compiled code
+	}
+	if x.con != nil && x.con.Prefix {
+		return // only the prefix was executed: no postconditions
 	}
 	if x.inlineMode {
 		if final != nil && len(x.results) == 1 {
@@ -842,4 +850,39 @@ func (g *Global) errVarInitNonNil(v *types.Var) bool {
 		return initOK && !assigned
 	}
 	return false
+}
+
+
+// execPrefix executes the top-level statements of an orchestration function up to (not including) the first statement
+// that is outside the sequential subset (go, select, …). Obligations and point assertions met on the way are genuine;
+// nothing is claimed about the rest of the function.
+func (x *Exec) execPrefix(list []ast.Stmt, st *State, env *Env) Flow {
+	fl := Flow{normal: st}
+	for _, s := range list {
+		if fl.normal == nil {
+			break
+		}
+		stop := false
+		var f Flow
+		func() {
+			defer func() {
+				if r := recover(); r != nil {
+					if u, ok := r.(unsupportedErr); ok {
+						p := x.g.fset.Position(s.Pos())
+						x.c.notes[fmt.Sprintf("%s: only the statements before %s:%d are verified (%s)", x.fi.Key, shortPath(p.Filename), p.Line, u.msg)] = true
+						stop = true
+						return
+					}
+					panic(r)
+				}
+			}()
+			f = x.execStmtWithPoints(s, fl.normal, env)
+		}()
+		if stop {
+			break
+		}
+		fl.normal = f.normal
+		fl.ret = x.merge(fl.ret, f.ret)
+	}
+	return fl
 }
